@@ -170,6 +170,35 @@ theorem front_no_rooms {o : Opts} {e : Env} {pb : Problem} (h : front o e = .ok 
   simp only [parseRooms, h1, h2, Except.ok.injEq, Prod.mk.injEq] at this
   exact this.1.symm
 
+/-- with a rooms file, the room list the solver fits courses into is exactly the expansion of the
+    kinds the possible-rooms listing is computed from (`RM.kindNames` expands the same kinds again):
+    solver and listing cannot disagree about which rooms exist -/
+theorem front_kinds_rooms {o : Opts} {e : Env} {pb : Problem} {ks : List RM.Kind} (h : front o e = .ok pb)
+    (hk : pb.kinds = some ks) :
+    pb.rooms = some (ks.flatMap (fun k => List.replicate k.quantity k.capacity)) := by
+  have := front_rooms h
+  unfold parseRooms at this
+  repeat' split at this
+  all_goals first
+    | contradiction
+    | (simp only [Except.ok.injEq, Prod.mk.injEq] at this
+       obtain ⟨h1, h2⟩ := this
+       rw [hk] at h2
+       first
+         | (cases h2; done)
+         | (simp only [Option.some.injEq] at h2; subst h2; rw [← h1]; rfl))
+
+/-- without a rooms file there are no kinds, and the listing shows plain sizes -/
+theorem front_no_kinds {o : Opts} {e : Env} {pb : Problem} (h : front o e = .ok pb) (h2 : o.roomsFile = false) :
+    pb.kinds = none := by
+  have := front_rooms h
+  unfold parseRooms at this
+  rw [h2] at this
+  repeat' split at this
+  all_goals first
+    | contradiction
+    | (simp only [Except.ok.injEq, Prod.mk.injEq] at this; exact this.2.symm)
+
 /-- an input file that cannot be opened or is not JSON is refused -/
 theorem C15_main_input_bad {o : Opts} {e : Env} (hb : e.input = .cannotOpen ∨ e.input = .notJson) :
     ∃ c, front o e = .error c := by
